@@ -9,7 +9,7 @@ Description
               "k": num | [num, num],         # rate constant (pair = (kf, kb) of an Equilibrium member, C15 only)
               "ktype": "plain" | "named" | "massaction",
               "eq": bool}                    # Equilibrium member (C15 only)
-    num    = int | float | "p/q" | {"sym": name}
+    num    = int | float | "p/q" | {"sym": name} | {"arr": [float, ...]}   (arr: one value per state, class 'ndarray')
 
 Sections 1-3 never import chempy (reference semantics are computed from the description alone).
 Section 4 (builders) turns a description into chempy objects; imports are lazy.
@@ -27,12 +27,16 @@ SIDES = ("reac", "prod", "inact_reac", "inact_prod")
 
 
 def is_sym(n):
-    return isinstance(n, dict)
+    return isinstance(n, dict) and "sym" in n
+
+
+def is_arr(n):
+    return isinstance(n, dict) and "arr" in n
 
 
 def exact(n):
     """int | float | 'p/q' -> Fraction (floats are taken at their exact binary value)."""
-    if isinstance(n, bool) or is_sym(n):
+    if isinstance(n, bool) or isinstance(n, dict):
         raise TypeError("not a number description: %r" % (n,))
     if isinstance(n, (int, float)):
         return Fraction(n)
@@ -41,17 +45,23 @@ def exact(n):
 
 
 def native(n):
-    """The Python object handed to chempy: int, float, fractions.Fraction or sympy.Symbol."""
+    """The Python object handed to chempy: int, float, fractions.Fraction, sympy.Symbol or a float numpy array."""
     if is_sym(n):
         import sympy
         return sympy.Symbol(n["sym"])
+    if is_arr(n):
+        import numpy as np
+        return np.array(n["arr"], dtype=float)
     if isinstance(n, str):
         return exact(n)
     return n
 
 
 def refval(n, cls):
-    """Value used by the reference computation: Fraction (classes 'exact', 'float') or a sympy object ('sym')."""
+    """Value used by the reference computation: Fraction (classes 'exact', 'float', scalars of 'ndarray'), a Vec of
+    Fractions (arrays of class 'ndarray': one entry per state) or a sympy object ('sym')."""
+    if is_arr(n):
+        return Vec([Fraction(float(x)) for x in n["arr"]])
     if cls == "sym":
         import sympy
         if is_sym(n):
@@ -112,6 +122,70 @@ def floats_pos(lo_exp, hi_exp):
     return _cached(("fl", lo_exp, hi_exp), lambda: st.builds(
         lambda m, e: float(m * 10.0 ** e),
         st.floats(min_value=1.0, max_value=9.999, allow_nan=False, allow_infinity=False), st.integers(lo_exp, hi_exp)))
+
+
+class Vec(object):
+    """Reference value of an array-valued quantity: one Fraction per state; + - * abs and ** int act state by state
+    (a plain int / Fraction operand is the same in every state).  This is all the reference semantics need."""
+    __slots__ = ("v",)
+
+    def __init__(self, v):
+        self.v = list(v)
+
+    def _other(self, o):
+        if isinstance(o, Vec):
+            if len(o.v) != len(self.v):
+                raise ValueError("state counts differ")
+            return o.v
+        if isinstance(o, (int, Fraction)) and not isinstance(o, bool):
+            return [o] * len(self.v)
+        return None
+
+    def _bin(self, o, f):
+        w = self._other(o)
+        return NotImplemented if w is None else Vec([f(a, b) for a, b in zip(self.v, w)])
+
+    def __add__(self, o):
+        return self._bin(o, lambda a, b: a + b)
+    __radd__ = __add__
+
+    def __sub__(self, o):
+        return self._bin(o, lambda a, b: a - b)
+
+    def __rsub__(self, o):
+        return self._bin(o, lambda a, b: b - a)
+
+    def __mul__(self, o):
+        return self._bin(o, lambda a, b: a * b)
+    __rmul__ = __mul__
+
+    def __pow__(self, n):
+        if not isinstance(n, int) or n < 0:
+            return NotImplemented
+        return Vec([a ** n for a in self.v])
+
+    def __abs__(self):
+        return Vec([abs(a) for a in self.v])
+
+    def __neg__(self):
+        return Vec([-a for a in self.v])
+
+    def __repr__(self):
+        return "Vec(%s)" % ", ".join(str(a) for a in self.v)
+
+
+def states_of(x, m):
+    """The per-state values of a reference value (Vec, or a number that is the same in all m states)."""
+    return list(x.v) if isinstance(x, Vec) else [x] * m
+
+
+def arr_values(m, kind):
+    """{"arr": [m floats]}: concentrations (with an occasional exact 0) or rate constants."""
+    if kind == "c":
+        el = _cached(("ae", "c"), lambda: st.one_of(floats_pos(-8, 3), floats_pos(-2, 1), st.integers(0, 9).map(float)))
+    else:
+        el = _cached(("ae", "k"), lambda: st.one_of(floats_pos(-3, 3), floats_pos(-15, 14)))
+    return _cached(("arr", m, kind), lambda: st.lists(el, min_size=m, max_size=m).map(lambda v: {"arr": v}))
 
 
 def conc_values(cls, key):
@@ -212,6 +286,8 @@ def _k_sig(k):
         return tuple(_k_sig(x) for x in k)
     if is_sym(k):
         return ("sym", k["sym"])
+    if is_arr(k):
+        return ("arr", tuple(k["arr"]))
     return ("num", exact(k))
 
 
@@ -242,6 +318,8 @@ def _other_k(k, j):
         return [_other_k(k[0], j), _other_k(k[1], j + 1)]
     if is_sym(k):
         return {"sym": k["sym"] + "_%d" % j}
+    if is_arr(k):
+        return {"arr": [x * 2.0 for x in k["arr"]]}
     if isinstance(k, int):
         return k + j
     if isinstance(k, float):
@@ -316,23 +394,66 @@ def reactions_over(draw, keys, max_n=3, cls="exact", start_index=0):
     return out
 
 
+SUBS_KINDS = ["keys", "keys", "species", "keys", "substance", "species_formula", "keys", "species"]
+PHASE_SUFFIX = {0: "", 1: "(s)", 2: "(l)", 3: "(g)"}
+
+
+def rename_keys(sysd, ren):
+    """The same system with other substance keys (every part of the description that mentions a key)."""
+    out = {"subs": [ren[k] for k in sysd["subs"]], "rxns": []}
+    for r in sysd["rxns"]:
+        r2 = dict(r)
+        for side in SIDES:
+            r2[side] = {ren[k]: v for k, v in r[side].items()}
+        out["rxns"].append(r2)
+    return out
+
+
 @st.composite
 def rate_cases(draw, cls=None, cstr=False, max_subs=8, max_rxns=8):
     """Case of C03: a system, a concentration vector (plus an alternative one), a permutation of the reactions and
     optionally stirred-tank feed terms."""
     if cls is None:
-        cls = pick(draw, ["exact", "exact", "float", "float", "sym"])
-    sysd = draw(systems(cls=cls, max_subs=max_subs, max_rxns=max_rxns,
+        cls = pick(draw, ["exact", "exact", "float", "float", "sym", "ndarray", "ndarray"])
+    # 'ndarray': every concentration is a float array with one entry per state (vectorised evaluation over m states);
+    # rate constants stay scalars except (half of the) named ones, which travel in `variables` like the concentrations
+    scalar_cls = "float" if cls == "ndarray" else cls
+    m = draw(ints(2, 4)) if cls == "ndarray" else None
+    sysd = draw(systems(cls=scalar_cls, max_subs=max_subs, max_rxns=max_rxns,
                         ktypes=("plain", "named", "massaction")))
-    conc = {k: draw(conc_values(cls, k)) for k in sorted(sysd["subs"])}
-    alt = {}
-    for k in sorted(sysd["subs"]):
-        if cls == "sym":
-            alt[k] = {"sym": "d_" + k}
-        else:
-            alt[k] = draw(conc_values(cls, k))
+    if m:
+        for r in sysd["rxns"]:
+            if r["ktype"] == "named" and draw(ints(0, 1)):
+                r["k"] = draw(arr_values(m, "k"))
+        conc = {k: draw(arr_values(m, "c")) for k in sorted(sysd["subs"])}
+        alt = {k: draw(arr_values(m, "c")) for k in sorted(sysd["subs"])}
+    else:
+        conc = {k: draw(conc_values(cls, k)) for k in sorted(sysd["subs"])}
+        alt = {}
+        for k in sorted(sysd["subs"]):
+            if cls == "sym":
+                alt[k] = {"sym": "d_" + k}
+            else:
+                alt[k] = draw(conc_values(cls, k))
     case = {"cls": cls, "sys": sysd, "conc": conc, "alt": alt,
             "perm": permutation(draw, list(range(len(sysd["rxns"]))))}
+    if m:
+        case["m"] = m
+    # how the substances are handed to ReactionSystem: key strings (default), Substance objects, or Species objects
+    # that carry a phase (phase_idx 0-3, given directly or through the key's suffix '(s)' '(l)' '(g)').  The phase has
+    # no place in the reference semantics.
+    skind = pick(draw, SUBS_KINDS)
+    if skind != "keys":
+        case["subs_kind"] = skind
+    if skind in ("species", "species_formula"):
+        phase = {k: pick(draw, [0, 1, 3, 2, 0, 1]) for k in sorted(sysd["subs"])}
+        if skind == "species_formula":
+            ren = {k: "S%d%s" % (int(k[1:]) + 1, PHASE_SUFFIX[phase[k]]) for k in sysd["subs"]}
+            phase = {ren[k]: p for k, p in phase.items()}
+            case["sys"] = sysd = rename_keys(sysd, ren)
+            case["conc"] = {ren[k]: v for k, v in conc.items()}
+            case["alt"] = {ren[k]: v for k, v in alt.items()}
+        case["phase"] = phase
     if cstr:
         which = draw(ints(0, 7))
         part = sorted(set(k for r in sysd["rxns"] for k in rxn_keys(r)))
@@ -345,6 +466,9 @@ def rate_cases(draw, cls=None, cstr=False, max_subs=8, max_rxns=8):
         if cls == "sym":
             fr = draw(_cached("symF", lambda: st.one_of(st.just({"sym": "F"}), st.integers(0, 5), fracs(9, 5))))
             fc = {k: ({"sym": "f_" + k} if draw(ints(0, 3)) else draw(ints(0, 9))) for k in sorted(fkeys)}
+        elif m:
+            fr = draw(arr_values(m, "c")) if draw(ints(0, 1)) else draw(conc_values("float", "F"))
+            fc = {k: draw(arr_values(m, "c")) for k in sorted(fkeys)}
         else:
             fr = draw(conc_values(cls, "F"))
             fc = {k: draw(conc_values(cls, k)) for k in sorted(fkeys)}
@@ -386,7 +510,7 @@ def ref_system_rates(sysd, ks, conc, cstr=None):
     numeric = True
     for r, k in zip(sysd["rxns"], ks):
         q = ref_rate(r, k, conc)
-        numeric = numeric and isinstance(q, (int, Fraction))
+        numeric = numeric and isinstance(q, (int, Fraction, Vec))
         for s in sysd["subs"]:
             n = net(r, s)
             if n:
@@ -397,7 +521,7 @@ def ref_system_rates(sysd, ks, conc, cstr=None):
         fr, fc = cstr
         for s in sorted(fc):
             rates[s] = rates[s] + fr * (fc[s] - conc[s])
-            if numeric and isinstance(fr, (int, Fraction)):
+            if numeric and isinstance(fr, (int, Fraction, Vec)):
                 scale[s] = scale[s] + abs(fr * fc[s]) + abs(fr * conc[s])
             else:
                 numeric = False
@@ -483,9 +607,11 @@ def build_reaction(r, idx=0):
     return Reaction(dict(r["reac"]), dict(r["prod"]), param, **parts)
 
 
-def build_system(sysd, rxn_objs=None, order=None, subs_arg="list"):
+def build_system(sysd, rxn_objs=None, order=None, subs_arg="list", phase=None):
     """ReactionSystem over the description; `order` = permutation of reaction indices; substances are passed as an
-    ordered container unless subs_arg says otherwise ('none', 'set', 'tuple', 'str', 'odict')."""
+    ordered container unless subs_arg says otherwise ('none', 'set', 'tuple', 'str', 'odict' = 'substance';
+    'species': Species(key, phase_idx=phase[key]); 'species_formula': Species.from_formula(key), the phase is read from
+    the key's suffix and the keys are sulfur allotropes 'S8(s)', so the element balance check is switched off)."""
     from collections import OrderedDict
     from chempy import ReactionSystem, Substance
     if rxn_objs is None:
@@ -501,8 +627,15 @@ def build_system(sysd, rxn_objs=None, order=None, subs_arg="list"):
         return ReactionSystem(rxn_objs, tuple(subs))
     if subs_arg == "str":
         return ReactionSystem(rxn_objs, " ".join(subs))
-    if subs_arg == "odict":
+    if subs_arg in ("odict", "substance"):
         return ReactionSystem(rxn_objs, OrderedDict((k, Substance(k)) for k in subs))
+    if subs_arg == "species":
+        from chempy import Species
+        return ReactionSystem(rxn_objs, OrderedDict((k, Species(k, phase_idx=phase[k])) for k in subs))
+    if subs_arg == "species_formula":
+        from chempy import Species
+        return ReactionSystem(rxn_objs, OrderedDict((k, Species.from_formula(k)) for k in subs),
+                              dont_check={"balance"})
     return ReactionSystem(rxn_objs, subs)
 
 
